@@ -2460,9 +2460,84 @@ func init() {
 }
 
 // closureRuntimeReviewed: the capture was read; the key names the literal.
-var closureRuntimeReviewed = map[string]string{
-	"(*runtime).newErrorObject$1":      "the `stack` getter reads only obj.value, the ottoError stored when the error object was built and never reassigned (an immutable Go value; the clone's object holds a copy of it): no state of the original runtime is read or written (checked: the only use of the capture is a load of field value)",
-	"(*runtime).newErrorObjectError$1": "same getter as newErrorObject$1",
+var closureRuntimeReviewed = map[string]string{}
+
+// immutablePayloadCapture: the only heap captures of the literal are objects of which nothing but the payload is read
+// (a load of field value, never written through), the payload is only asserted to a struct type T held by value, and
+// every store of a T into an object's payload anywhere in the package is made on an object created in the storing
+// function - the payload is fixed when the object is built, and what the literal reads is an immutable Go value the
+// clone's object holds a copy of. Returns the reason, or "".
+func immutablePayloadCapture(c *Ctx, fn *ssa.Function, isHeap func(types.Type) bool) string {
+	var T types.Type
+	for _, fv := range fn.FreeVars {
+		if !isHeap(fv.Type()) {
+			continue
+		}
+		pt, ok := fv.Type().Underlying().(*types.Pointer)
+		if !ok || !typeIs(pt.Elem(), ottoPath, "object") {
+			if len(*fv.Referrers()) == 0 {
+				continue
+			}
+			return ""
+		}
+		for _, ref := range *fv.Referrers() {
+			ld, isLoad := ref.(*ssa.UnOp)
+			if !isLoad {
+				return ""
+			}
+			for _, r2 := range *ld.Referrers() {
+				fa, ok := r2.(*ssa.FieldAddr)
+				if !ok || !isFieldAddr(fa, "object", "value") || writesThrough(fa) {
+					return ""
+				}
+				for _, r3 := range *fa.Referrers() {
+					pl, ok := r3.(*ssa.UnOp)
+					if !ok {
+						return ""
+					}
+					for _, r4 := range *pl.Referrers() {
+						ta, ok := r4.(*ssa.TypeAssert)
+						if !ok {
+							return ""
+						}
+						if _, isStruct := ta.AssertedType.Underlying().(*types.Struct); !isStruct {
+							return ""
+						}
+						if T != nil && !types.Identical(T, ta.AssertedType) {
+							return ""
+						}
+						T = ta.AssertedType
+					}
+				}
+			}
+		}
+	}
+	if T == nil {
+		return ""
+	}
+	n := 0
+	for _, f := range c.AllSrcFuncs("") {
+		for _, b := range f.Blocks {
+			for _, ins := range b.Instrs {
+				st, ok := ins.(*ssa.Store)
+				if !ok || !isFieldAddr(st.Addr, "object", "value") {
+					continue
+				}
+				mi, ok := st.Val.(*ssa.MakeInterface)
+				if !ok || !types.Identical(mi.X.Type(), T) {
+					continue
+				}
+				if !freshObject(st.Addr.(*ssa.FieldAddr).X, f, 0) {
+					return ""
+				}
+				n++
+			}
+		}
+	}
+	if n == 0 {
+		return ""
+	}
+	return fmt.Sprintf("of the captured object only the payload is read, as a %s held by value; all %d stores of a %s into an object payload are made on the object the storing function has just created, so the payload is fixed at construction and the literal reads an immutable Go value (the clone's object holds a copy of it): no state of the original runtime is read or written", typeStr(T), n, typeStr(T))
 }
 
 func ruleClosureRuntime(c *Ctx, r *R) {
@@ -2510,6 +2585,10 @@ func ruleClosureRuntime(c *Ctx, r *R) {
 		site := c.Pos(fn.Pos())
 		if len(caps) == 0 {
 			r.ok(key, site, "captures no runtime, object or stash")
+			continue
+		}
+		if why := immutablePayloadCapture(c, fn, func(t types.Type) bool { h := heapType(t); return h != "" && h != "Value" }); why != "" {
+			r.ok(key, site, why)
 			continue
 		}
 		if why, ok := closureRuntimeReviewed[key]; ok {
